@@ -82,18 +82,25 @@ def parseCall (s : String) : Option (CDecl × String) :=
     some ({ id := id, caller := ca, seq := sq, msgs := ms }, ptr)
   | _ => none
 
+/-- the header carries the Writer's options as configured (0 = left unset); the limits in force are the defaults of the
+accessors `batchSize()` / `batchBytes()` / `maxAttempts()` (Model: `effBatchSize` …, tied to the source by
+`C08.defaults_match_source`) -/
 def parseCfg (s : String) : Option MCfg :=
-  match words s with
-  | [_, _, _, bs, bb, ma, a, c, t] => do
+  let mk (bs bb ma a c t lg : String) : Option MCfg := do
     let bs ← bs.toNat?
     let bb ← bb.toNat?
     let ma ← ma.toNat?
-    some { bs := bs, bb := bb, ma := ma, async := a == "1", compl := c == "1", topic := dash t }
+    let lg ← lg.toNat?
+    some { bs := effBatchSize bs, bb := effBatchBytes bb, ma := effMaxAttempts ma, async := a == "1", compl := c == "1",
+           topic := dash t, linger := lg }
+  match words s with
+  | [_, _, _, bs, bb, ma, a, c, t] => mk bs bb ma a c t "0"
+  | [_, _, _, bs, bb, ma, a, c, t, lg] => mk bs bb ma a c t lg
   | _ => none
 
 def modelCfg (c : MCfg) : Cfg :=
   { batchSize := c.bs, batchBytes := c.bb, maxAttempts := c.ma, async := c.async, completion := c.compl,
-    topic := c.topic, retriable := retriable }
+    topic := c.topic, retriable := retriable, linger := c.linger }
 
 def callOfPtr (sc : Scenario) (p : String) : Option Nat := (sc.ptrs.find? (·.1 == p)).map (·.2)
 
@@ -138,6 +145,7 @@ def resolvePW (s : State) (tp : TP) (msgs : List Msg) : Nat :=
 def parseEvent (sc : Scenario) (s : State) (txt : String) : Option Event :=
   match words txt with
   | ["W.Enter", ok] => (parseBool ok).map Event.enter
+  | ["T.Tick", t] => t.toNat?.map Event.tick
   | ["W.Empty"] => some .empty
   | ["W.Begin", p, n] => do
     let c ← callOfPtr sc p
@@ -320,7 +328,7 @@ def handle (line : String) : String :=
         let accepted : List (String × Nat) := sc.ptrs.filterMap (fun (ptr, cid) =>
           if isAccepted (retOf obs cid) then (sc.calls.find? (·.id == cid)).map (fun d => (ptr, d.msgs.length)) else none)
         let c08 := holdsC08 mc sc.calls j obs && closedWhenFull mc.bs mc.bb sizeOf tev && detachedGetsPut tev && timerDetachOk tev &&
-          attemptedAll tev accepted
+          attemptedAll tev accepted && lingerOk mc.linger tev
         let c07 := holdsC07 sc.calls j obs && putInsideSection tev
         let c01 := holdsC01 mc sc.calls j obs && batchOnce tev && timerDetachOk tev
         let holds :=
